@@ -1,7 +1,11 @@
 OPT = ["mi_option_get", "mi_option_is_enabled", "mi_option_get_clamp"]
 PAIRS = [
     dict(name="arenas_try_purge", harness="harness/c18_arena.c", enforce="mi_arenas_try_purge", rg=True,
-         replace=["mi_arena_try_purge", "_mi_clock_now", "_mi_preloading"] + OPT, label="B", K=6, defs=["-DVC_K=6"], objbits=12, functions=["mi_arenas_try_purge", "mi_arena_purge_delay"], timeout=300),
+         replace=["mi_arena_try_purge", "mi_arena_purge_delay/c_arena_purge_delay_use", "_mi_clock_now", "_mi_preloading"] + OPT, label="B", K=6, defs=["-DVC_K=6"], objbits=12, functions=["mi_arenas_try_purge", "mi_arena_purge_delay"], timeout=300),
+]
+PAIRS += [
+    dict(name="arena_purge_delay", harness="harness/c18_arena.c", enforce="mi_arena_purge_delay", rg=True, replace=OPT, label="P", objbits=12,
+         functions=["mi_arena_purge_delay"]),
 ]
 HS = "harness/seg_purge.c"
 STUBS = ["_mi_os_purge", "_mi_os_commit", "_mi_clock_now", "_mi_preloading"] + OPT
@@ -18,6 +22,6 @@ PAIRS += [
          unwind=66, functions=["_mi_commit_mask_next_run"], timeout=600),
     dict(name="seg_try_purge", harness=HS, entry="h_try_purge", enforce="mi_segment_try_purge", config="SCALED", label="P",
          replace=["mi_segment_purge/c_seg_purge_rec", "_mi_commit_mask_next_run/c_next_run_use"] + STUBS,
-         loops="loops/seg_try_purge.json", need_ids=["loop_invariant_step"],
+         loops="loops/seg_try_purge.json", need_ids=["loop_invariant_step"], unwind=14,
          functions=["mi_segment_try_purge", "_mi_commit_mask_next_run"], timeout=900, cbmc_flags=NOPTR),
 ]
